@@ -130,10 +130,15 @@ def overwrite_guard(ctx, exporter, spelling, kind):
             os.chdir(cwd)
 
 
-def _shapes(rs, d):
+MAGNITUDES = {'hundreds': 100.0, 'thousands': 3000.0, 'millions': 2.5e6, 'thousandths': 1e-3}
+
+
+def _shapes(rs, d, magnitude='hundreds'):
     T, S = B.menpo_mods()
     n = 5
-    P = rs.randn(n, d) * 100
+    P = rs.randn(n, d) * MAGNITUDES[magnitude]
+    if magnitude != 'thousandths':
+        P[0] = np.abs(P[0]) + MAGNITUDES[magnitude]       # at least one point of the full magnitude
     edges = np.array([[0, 1], [1, 2], [3, 4]])
     lab = OrderedDict([('zeta', np.array([1, 1, 0, 0, 0], bool)), ('été-漢', np.array([0, 1, 1, 1, 1], bool)), ('alpha', np.array([1, 0, 0, 0, 1], bool))])
     out = {'PointCloud': S.PointCloud(P), 'PointUndirectedGraph': S.PointUndirectedGraph.init_from_edges(P, edges),
@@ -146,10 +151,11 @@ def _shapes(rs, d):
 @contract('C16', 'landmark_roundtrip', level='bounded', native_samples=3,
           configs=[dict(fmt=f, cls=c, d=d, nan=nn) for f in ('ljson', 'pts') for c in ('PointCloud', 'PointUndirectedGraph', 'EmptyEdges', 'LabelledPointUndirectedGraph', 'TriMesh')
                    for d in (2, 3) for nn in ('none', 'full-row', 'partial-row') if not (f == 'pts' and (d == 3 or nn != 'none'))] +
-          [dict(fmt='ljson', cls='LandmarkManager', d=2, nan='partial-row')],
+          [dict(fmt='ljson', cls='LandmarkManager', d=2, nan='partial-row')] +
+          [dict(fmt=f, cls='PointCloud', d=2, nan='none', magnitude=m) for f in ('ljson', 'pts') for m in ('thousands', 'millions', 'thousandths')],
           functions=['menpo.io.output.landmark:ljson_exporter', 'menpo.io.output.landmark:pts_exporter', 'menpo.io.input.landmark:ljson_importer',
                      'menpo.io.input.landmark:_parse_ljson_v3', 'menpo.io.input.landmark:_ljson_parse_null_values', 'menpo.io.input.landmark:pts_importer'])
-def landmark_roundtrip(ctx, fmt, cls, d, nan):
+def landmark_roundtrip(ctx, fmt, cls, d, nan, magnitude='hundreds'):
     """LJSON: identical coordinates (missing values included, also when only
     some coordinates of a point are missing), same undirected edges, same
     labels in the same order, same group names; PTS: within 3 decimals."""
@@ -173,7 +179,7 @@ def landmark_roundtrip(ctx, fmt, cls, d, nan):
                 a, b = owner.landmarks[nm], back[nm]
                 ctx.check_true('group[%s]/coordinates' % nm, np.array_equal(a.points, b.points, equal_nan=True))
             return
-        obj = _shapes(rs, d)[cls]
+        obj = _shapes(rs, d, magnitude)[cls]
         if nan == 'full-row':
             obj.points[2, :] = np.nan
         elif nan == 'partial-row':
@@ -286,3 +292,252 @@ def image_roundtrip(ctx, ext, ch):
         mio.export_image(Image(fl), p4)
         d = mio.import_image(p4, normalize=True)
         ctx.check_true('float/less-than-one-level', bool(np.all(np.abs(d.pixels - fl) < 1.0 / 255)))
+
+
+# ======================================================================
+# E1: the overwrite guard as contracts on the real export functions
+# ======================================================================
+E1_FUNCS = ['_validate_filepath', '_validate_and_get_export_func', '_enforce_only_paths_supported', '_export', '_export_paths_only',
+            'export_image', 'export_landmark_file', 'export_pickle', 'export_video']
+# a request that is invalid whatever the file system holds (several landmark
+# groups into a format other than LJSON) is refused with ValueError before the
+# path is looked at; the file stays untouched (clause 'refused-call-opens-
+# nothing' still applies) - the OverwriteError clause is read for valid requests
+EARLY_VALUEERROR = {'export_landmark_file'}
+# helpers that are only given a frame contract ("touches no file"): checked
+# mechanically on their AST - every call they make is in the whitelist
+FRAME_PURE = {
+    '_parse_and_validate_extension': {'_possible_extensions_from_filepath', '_normalize_extension', 'ValueError', 'format', 'join', 'pop'},
+    '_extension_to_export_function': {'ValueError', 'format'},
+}
+FRAME_PURE_UTILS = {
+    '_possible_extensions_from_filepath': {'join', 'range', 'len', 'lower'},
+    '_normalize_extension': {'lower', 'startswith'},
+    '_norm_path': {'Path', 'abspath', 'normpath', 'expandvars', 'expanduser', 'str'},
+}
+
+
+def _e1_guard_contracts():
+    """callee contracts used at call sites (each is the postcondition proved
+    for the callee's own body in its own configuration)."""
+    import z3
+    from vp import pyvc, pyvc_io as IO
+
+    def guard_forks(gen, s, p, ow, tag):
+        """OverwriteError exactly when the location exists and overwrite is false"""
+        blocked = z3.And(IO.exists(p.loc), z3.Not(ow))
+        return s.fork([blocked]), s.fork([z3.Not(blocked)])
+
+    def as_bool(gen, s, v):
+        return gen.truth(v) if not isinstance(v, bool) else z3.BoolVal(v)
+
+    def k_validate_filepath(gen, s, args, kw):
+        p, ow = args
+        sb, sf = guard_forks(gen, s, p, as_bool(gen, s, ow), 'vf')
+        return [(sb, pyvc.ExcV('OverwriteError')), (sf, IO.PathV('Path', p.loc, True))]
+
+    def k_vagef(gen, s, args, kw):
+        p, emap, ext, ow = args[:4]
+        ret_ext = False
+        if len(args) > 4:
+            ret_ext = args[4]
+        elif 'return_extension' in kw:
+            (s, ret_ext), = gen.ev(kw['return_extension'], s)
+        sb, sf = guard_forks(gen, s, p, as_bool(gen, s, ow), 'vagef')
+        bad = gen.fresh_bool('unknown_or_mismatching_extension')
+        fn = IO.Opaque('callable:exporter')
+        out = [(sb, pyvc.ExcV('OverwriteError')), (sf.fork([bad]), pyvc.ExcV('ValueError'))]
+        ok = sf.fork([z3.Not(bad)])
+        r = z3.simplify(as_bool(gen, s, ret_ext))
+        if z3.is_true(r):
+            out.append((ok, (fn, IO.Opaque('ext'))))
+        elif z3.is_false(r):
+            out.append((ok, fn))
+        else:
+            out.append((ok.fork([r]), (fn, IO.Opaque('ext'))))
+            out.append((ok.fork([z3.Not(r)]), fn))
+        return out
+
+    def k_pure_may_raise_valueerror(result):
+        def k(gen, s, args, kw):
+            bad = gen.fresh_bool('raises_ValueError')
+            return [(s.fork([bad]), pyvc.ExcV('ValueError')), (s.fork([z3.Not(bad)]), result(args))]
+        return k
+
+    def k_exporter(gen, s, args, kw):
+        """an exporter callable: writes into the handle it is given, or (paths
+        only exporters) creates the file at the path it is given; may raise"""
+        target = args[1]
+        if isinstance(target, IO.PathV):
+            s.env['$written'] = z3.Store(s.env['$written'], target.loc, True)
+            s.env['$n_opens'] = s.env['$n_opens'] + 1
+        elif not isinstance(target, IO.HandleV):
+            raise pyvc.OutsideSubset('exporter target %r' % (target,))
+        return [(s, pyvc.NONE)]
+
+    def k_opener(gen, s, args, kw):
+        p = args[0]
+        s.env['$written'] = z3.Store(s.env['$written'], p.loc, True)
+        s.env['$n_opens'] = s.env['$n_opens'] + 1
+        return [(s, IO.HandleV(p.loc))]
+
+    def k_export(gen, s, args, kw):
+        obj, fp, emap, ext, ow = args[:5]
+        ow = as_bool(gen, s, ow)
+        bad = gen.fresh_bool('export_raises_ValueError')
+        if isinstance(fp, IO.PathV):
+            sb, sf = guard_forks(gen, s, fp, ow, 'export')
+            ok = sf.fork([z3.Not(bad)])
+            ok.env['$written'] = z3.Store(ok.env['$written'], fp.loc, True)
+            ok.env['$n_opens'] = ok.env['$n_opens'] + 1
+            return [(sb, pyvc.ExcV('OverwriteError')), (sf.fork([bad]), pyvc.ExcV('ValueError')), (ok, pyvc.NONE)]
+        if isinstance(fp, IO.HandleV):
+            # named handle: the guard is evaluated on Path(fp.name); data goes into the handle, nothing is opened
+            sb, sf = guard_forks(gen, s, fp, ow, 'export-handle')
+            return [(sb, pyvc.ExcV('OverwriteError')), (sf.fork([bad]), pyvc.ExcV('ValueError')), (sf.fork([z3.Not(bad)]), pyvc.NONE)]
+        raise pyvc.OutsideSubset('_export target %r' % (fp,))
+
+    def k_str(gen, s, args, kw):
+        (v,) = args
+        if isinstance(v, IO.PathV):
+            return [(s, IO.PathV('str', v.loc, v.normalised))]
+        raise pyvc.OutsideSubset('str() of %r' % (v,))
+
+    ident = lambda args: args[0]
+    K = {
+        'isinstance': IO.c_isinstance, 'Path': IO.c_Path, 'str': k_str, '_norm_path': IO.c_norm_path,
+        '<Path>.exists': IO.c_path_exists, '<Path>.open': IO.c_path_open_wb,
+        '_validate_filepath': k_validate_filepath, '_validate_and_get_export_func': k_vagef,
+        '_parse_and_validate_extension': k_pure_may_raise_valueerror(lambda a: IO.Opaque('ext')),
+        '_extension_to_export_function': k_pure_may_raise_valueerror(lambda a: IO.Opaque('callable:exporter')),
+        '_enforce_only_paths_supported': lambda gen, s, args, kw: [(s, args[0])],      # for str / Path: proved on its body
+        'hasattr': lambda gen, s, args, kw: [(s, z3.BoolVal(isinstance(args[0], IO.PathV) and args[0].kind == 'Path' or isinstance(args[0], IO.HandleV)))],
+        '_normalize_extension': lambda gen, s, args, kw: [(s, args[0])],
+        '_export': k_export, '_export_paths_only': k_export,
+        '<callable:exporter>': k_exporter, '<callable:opener>': k_opener,
+        'exporter_kwargs.update': lambda gen, s, args, kw: [(s, pyvc.NONE)],
+    }
+    return K
+
+
+def _frame_pure_obligations(ctx):
+    """frame contract 'touches no file' for the helpers that appear only as
+    callee contracts: every call in their AST is in a whitelist of pure
+    string / path-arithmetic operations."""
+    import ast, inspect, textwrap
+    import menpo.io.output.base as OB
+    import menpo.io.utils as OU
+    for mod, table in ((OB, FRAME_PURE), (OU, FRAME_PURE_UTILS)):
+        for name, allowed in table.items():
+            fn = getattr(mod, name)
+            tree = ast.parse(textwrap.dedent(inspect.getsource(fn)))
+            calls = set()
+            for node in ast.walk(tree):
+                if isinstance(node, ast.Call):
+                    f = node.func
+                    calls.add(f.id if isinstance(f, ast.Name) else f.attr if isinstance(f, ast.Attribute) else '<expr>')
+                if isinstance(node, (ast.With, ast.Import, ast.ImportFrom, ast.Global, ast.Delete)):
+                    calls.add('<%s>' % type(node).__name__)
+            extra = sorted(calls - set(allowed))
+            ctx.check_true('frame/%s/calls-only-pure-helpers' % name, not extra, 'unexpected calls: %s' % extra)
+
+
+def _e1_cfgs(tier):
+    out = [dict(func='frame-of-helpers', kind='-', ext='-')]
+    for f in E1_FUNCS:
+        for kind in ('str', 'Path'):
+            exts = ('given', 'none') if f in ('_export', '_export_paths_only', '_validate_and_get_export_func', 'export_image', 'export_landmark_file') else ('-',)
+            for e in exts:
+                out.append(dict(func=f, kind=kind, ext=e))
+    return out
+
+
+@contract('C16', 'e1_overwrite_guard', configs=_e1_cfgs, functions=[
+    'menpo.io.output.base:_validate_filepath', 'menpo.io.output.base:_validate_and_get_export_func', 'menpo.io.output.base:_export',
+    'menpo.io.output.base:_export_paths_only', 'menpo.io.output.base:export_image', 'menpo.io.output.base:export_landmark_file',
+    'menpo.io.output.base:export_pickle', 'menpo.io.output.base:export_video', 'menpo.io.output.base:_parse_and_validate_extension',
+    'menpo.io.output.base:_extension_to_export_function', 'menpo.io.output.base:_enforce_only_paths_supported'])
+def e1_overwrite_guard(ctx, func, kind, ext):
+    """unbounded over the state of the file system, the overwrite flag and
+    the outcome of every helper: for a str or Path target the export functions
+    raise OverwriteError exactly when the target exists and overwriting was not
+    requested, in that case open nothing for writing, never open any other
+    location, and open the target exactly once when they return normally."""
+    if not ctx.sym:
+        # native counterpart: the bounded run-time contract on the real file system
+        for e in ('ljson', 'pkl', 'png'):
+            overwrite_guard(ctx, exporter=e, spelling='relative', kind=kind if kind in ('str', 'Path') else 'str')
+        return
+    if func == 'frame-of-helpers':
+        _frame_pure_obligations(ctx)
+        return
+    import z3
+    from vp import pyvc, pyvc_io as IO
+    import menpo.io.output.base as OB
+    fn = getattr(OB, func)
+    K = dict(_e1_guard_contracts())
+    K.pop(func, None)                      # the function under proof runs its own body
+    g = IO.IOGen(fn, K, name='%s[%s,ext=%s]' % (func, kind, ext))
+    loc = z3.Const('target', IO.Loc)
+    ow = z3.Bool('overwrite')
+    written0 = z3.Const('written0', z3.ArraySort(IO.Loc, z3.BoolSort()))
+    fp = IO.PathV(kind, loc)
+    extv = IO.Opaque('ext') if ext == 'given' else pyvc.NONE
+    env = {'str': IO.TypeTok('str'), 'Path': IO.TypeTok('Path'), '$written': written0, '$n_opens': z3.IntVal(0),
+           'landmark_types': IO.Opaque('map'), 'image_types': IO.Opaque('map'), 'pickle_types': IO.Opaque('map'), 'video_types': IO.Opaque('map'),
+           'gzip_open': IO.Opaque('callable:opener'), 'open': IO.Opaque('callable:opener')}
+    params = {
+        '_validate_filepath': dict(fp=fp, overwrite=ow),
+        '_validate_and_get_export_func': dict(file_path=fp, extensions_map=IO.Opaque('map'), extension=extv, overwrite=ow, return_extension=z3.Bool('return_extension')),
+        '_enforce_only_paths_supported': dict(file_path=fp, exporter_name=IO.Opaque('str')),
+        '_export': dict(obj=IO.Opaque('obj'), fp=fp, extensions_map=IO.Opaque('map'), extension=extv, overwrite=ow, exporter_kwargs=pyvc.NONE),
+        '_export_paths_only': dict(obj=IO.Opaque('obj'), file_path=fp, extensions_map=IO.Opaque('map'), extension=extv, overwrite=ow, exporter_kwargs=pyvc.NONE),
+        'export_image': dict(image=IO.Opaque('obj'), fp=fp, extension=extv, overwrite=ow),
+        'export_landmark_file': dict(landmarks_object=IO.Opaque('object:any'), fp=fp, extension=extv, overwrite=ow),
+        'export_pickle': dict(obj=IO.Opaque('obj'), fp=fp, overwrite=ow, protocol=z3.IntVal(2)),
+        'export_video': dict(images=IO.Opaque('obj'), file_path=fp, overwrite=ow, fps=z3.IntVal(30), kwargs=IO.Opaque('dict')),
+    }[func]
+    env.update(params)
+    blocked = z3.And(IO.exists(loc), z3.Not(ow))
+    writes_file = func not in ('_validate_filepath', '_validate_and_get_export_func', '_enforce_only_paths_supported')
+
+    def post(gen, s, out):
+        w, n = s.env['$written'], s.env['$n_opens']
+        nm = gen.name
+        if func == '_enforce_only_paths_supported':
+            # not a guard: for a str or Path it hands its argument back and touches nothing
+            gen.oblige(nm + '/str-or-Path-is-returned-unchanged', s, z3.BoolVal(out[0] == 'return' and out[1] is fp))
+            gen.oblige(nm + '/opens-nothing', s, z3.And(n == 0, w == written0))
+            return
+        is_ow_err = out[0] == 'raise' and out[1].cls == 'OverwriteError'
+        if is_ow_err:
+            gen.oblige(nm + '/OverwriteError-only-if-target-exists-and-overwrite-not-requested', s, blocked)
+        elif not (func in EARLY_VALUEERROR and out[0] == 'raise' and out[1].cls == 'ValueError'):
+            gen.oblige(nm + '/existing-target-without-overwrite-is-refused (outcome %s)' % (out[0] if out[0] != 'raise' else 'raise ' + out[1].cls), s, z3.Not(blocked))
+        gen.oblige(nm + '/refused-call-opens-nothing-for-writing', s, z3.Implies(blocked, z3.And(n == 0, w == written0)))
+        x = z3.Const('x!post', IO.Loc)
+        gen.oblige(nm + '/frame/no-other-location-is-opened-for-writing', s, z3.ForAll([x], z3.Implies(x != loc, w[x] == written0[x])))
+        if out[0] != 'raise':
+            if writes_file:
+                gen.oblige(nm + '/normal-return-opened-the-target-exactly-once', s, z3.And(n == 1, w[loc]))
+            else:
+                gen.oblige(nm + '/validation-opens-nothing', s, z3.And(n == 0, w == written0))
+                if func == '_validate_filepath':
+                    r = out[1]
+                    gen.oblige(nm + '/returns-the-normalised-path-of-the-same-location', s,
+                               z3.BoolVal(isinstance(r, IO.PathV) and r.kind == 'Path' and r.normalised) if not isinstance(r, IO.PathV) else z3.And(r.loc == loc, z3.BoolVal(r.kind == 'Path' and r.normalised)))
+    try:
+        vcs = g.run(env, [], post)
+    except pyvc.OutsideSubset as e:
+        from vp.sreal import EngineGap
+        raise EngineGap('E1 subset: %s' % e)
+    recs = pyvc.discharge(vcs)
+    ctx.check_true('vc-generated>0', len(recs) > 0)
+    ctx.check_true('vacuity/terminating-paths-with-satisfiable-assumptions', g.paths - g.vacuous_paths >= (1 if func == '_enforce_only_paths_supported' else 2), '%d paths, %d vacuous' % (g.paths, g.vacuous_paths))
+    for r in recs:
+        rec = dict(name='VC:' + r['name'], status=r['status'], backend='E1:' + r['backend'], time_s=r['time_s'])
+        if r['status'] != 'proved':
+            rec['detail'] = 'solver model: %s' % str(r.get('model'))[:300]
+            rec['model'] = {'e1_counter_model': str(r.get('model'))[:300]}
+        ctx.extra_results.append(rec)
+    ctx.note('extraction dropped: %s; source lines: %d' % (g.dropped, g.src_lines))
